@@ -1,5 +1,6 @@
 #!/bin/bash
 # run_patch.sh <patch.diff> <tag> <ID>...: apply a patch to a scratch worktree of /repo and run the given checks on it
+V=$(cd "$(dirname "$0")/.." && pwd)
 p=$1; tag=$2; shift 2
 export GOPROXY=off GOSUMDB=off GOTOOLCHAIN=local
 wt=/tmp/rp-$tag
@@ -7,6 +8,6 @@ git -C /repo worktree remove --force $wt 2>/dev/null
 git -C /repo worktree add -q $wt HEAD || exit 2
 git -C $wt apply $p || { echo "patch does not apply"; git -C /repo worktree remove --force $wt; exit 2; }
 for id in "$@"; do
-  VERIF_REPO=$wt VERIF_RUNTAG=-rp-$tag VERIF_NO_EVIDENCE=1 python3 /verif/tools/check.py $id --tier ${TIER:-quick} 2>&1 | grep -v "^KNOWN" | grep "VIOLATION\|^check\|broken:" | cut -c1-300 | sed "s/^/[$tag] /"
+  VERIF_REPO=$wt VERIF_RUNTAG=-rp-$tag VERIF_NO_EVIDENCE=1 python3 $V/tools/check.py $id --tier ${TIER:-quick} 2>&1 | grep -v "^KNOWN" | grep "VIOLATION\|^check\|broken:" | cut -c1-300 | sed "s/^/[$tag] /"
 done
 git -C /repo worktree remove --force $wt
